@@ -451,6 +451,7 @@ def invariant_for(I, ctl, node, env, it, k, spec):
             I.assign_target(node.target, SInt(i), env)
             mark = len(c.fx)
             broke = False
+            head_view = snapshot([v for v in ctl.bindings.values()]) if (spec.each and spec.each_old == "head") else None
             try:
                 I.exec_block(node.body, env)
             except BreakSig:
@@ -463,7 +464,7 @@ def invariant_for(I, ctl, node, env, it, k, spec):
                     names_ = lam.__code__.co_varnames[: lam.__code__.co_argcount]
                     if any(n_ not in b and n_ != "old" for n_ in names_):
                         continue
-                    f = eval_clause(I, lam, _select(lam, b), old_view=ctl.old_view())
+                    f = eval_clause(I, lam, _select(lam, b), old_view=head_view if head_view is not None else ctl.old_view())
                     c.check_obligation(f"{ctl.con.qualname}::loop{k}.each.{cid}", f)
                 c.check_obligation(f"{ctl.con.qualname}::__canary__", False)
             if broke:
